@@ -138,14 +138,15 @@ def gen_program(tape, phase, special):
             for _ in range(nops):
                 kind = tape.weighted([(12, 'store'), (2, 'store_input'), (1, 'store_final'), (3, 'log'),
                                       (2, 'annotate'), (3, 'metadata'), (2, 'localfile'),
-                                      (7, 'retrieve'), (1, 'db_store_model'), (1, 'retrieve_log')], 'op')
+                                      (5, 'retrieve'), (3, 'retrieve_name'), (1, 'db_store_model'),
+                                      (1, 'retrieve_log')], 'op')
                 m = chosen[tape.draw(len(chosen), 'op.model')]
                 uid[0] += 1
                 if focus == 4 and tape.draw(10, 'focus.log') < 7:
                     kind = 'log'
                 if focus == 3:
-                    kind = tape.weighted([(4, 'store'), (3, 'metadata'), (2, 'localfile'), (7, 'retrieve'),
-                                          (1, 'store_input')], 'hot.op')
+                    kind = tape.weighted([(4, 'store'), (3, 'metadata'), (2, 'localfile'), (5, 'retrieve'),
+                                          (3, 'retrieve_name'), (1, 'store_input')], 'hot.op')
                 if kind in ('store_input', 'store_final'):
                     nm = 'input' if kind == 'store_input' else 'final'
                     m = special.setdefault(nm, m)
@@ -268,7 +269,10 @@ def run_one(cfg, tape, want_trace=False):
                             raise SimAbort()
                         rec = hist.invoke(vt, op)
                         try:
-                            out = base.do_op(ctx, op, localfile)
+                            if op['kind'] == 'retrieve_name':
+                                out = ('entry', ctx.retrieve_model_entry(POOL[op['model']]['name']))
+                            else:
+                                out = base.do_op(ctx, op, localfile)
                             if op['kind'] == 'retrieve':
                                 out = _retrieve(ctx, op)
                         except simfs.ProcessDied:
@@ -436,12 +440,83 @@ def _check_history(hist, ref, failed_ops, V, stats, simos, k):
                 else:
                     V.viol(f'committed-unretrievable/{type(r["exc"]).__name__}',
                            f'{r["vt"]}: retrieve of committed {e["name"]} raised {r["exc"]!r}')
+    # readers by name: a name whose store was acknowledged before the read began must resolve
+    for r in recs:
+        op = r['op']
+        if op['kind'] != 'retrieve_name' or r['status'] not in ('ok', 'error'):
+            continue
+        e = POOL[op['model']]
+        name = e['name']
+        writers = [x for x in recs if x['op'].get('model') is not None and
+                   x['op']['kind'] in ('store', 'annotate') and not x['op'].get('sub') and
+                   POOL[x['op']['model']]['name'] == name]
+        bound_before = (ref.names.get(name) == e['key']) or any(
+            x['status'] == 'ok' and x['ret'] < r['inv'] and x['op']['kind'] == 'store' for x in writers)
+        if r['status'] == 'ok':
+            me = r['out'][1]
+            related = [x for x in recs if x['inv'] < r['ret'] and x['op'].get('model') is not None and
+                       POOL[x['op']['model']]['key'] == e['key'] and
+                       x['op']['kind'] in ('store', 'store_input', 'store_final', 'db_store_model')]
+            acc = {POOL[x['op']['model']]['results_json'] for x in related
+                   if x['op']['kind'] != 'db_store_model' and POOL[x['op']['model']]['has_results']}
+            if e['key'] in ref.keys_acked:
+                acc |= ref.results_candidates(e['key'])
+            if not acc or any(x['op']['kind'] == 'db_store_model' or
+                              not POOL[x['op']['model']]['has_results'] for x in related):
+                acc.add(None)
+            for f in failed_ops:
+                if f.get('model') is not None and POOL[f['model']]['key'] == e['key'] and \
+                        POOL[f['model']]['has_results']:
+                    acc.add(POOL[f['model']]['results_json'])
+            prob = base.content_problem(me, e['key'], acc)
+            descs = set(ref.annotation_candidates(name))
+            for x in writers:
+                if x['inv'] < r['ret']:
+                    descs.add(x['op']['text'] if x['op']['kind'] == 'annotate' else e['desc'])
+            for f in failed_ops:
+                if f.get('model') is not None and f['kind'] in ('store', 'annotate') and \
+                        POOL[f['model']]['name'] == name:
+                    descs.add(f['text'] if f['kind'] == 'annotate' else POOL[f['model']]['desc'])
+            if prob is None and me.model.name != name:
+                prob = f'name is {me.model.name!r}'
+            if prob is None and me.model.description not in descs:
+                prob = f'description is {me.model.description!r}, written so far: {sorted(descs)}'
+            if prob is not None:
+                V.viol('partial-or-wrong-entry-visible',
+                       f'concurrent retrieve by name {name!r} by {r["vt"]} succeeded but {prob}')
+            stats['r1.concurrent_read_by_name_ok'] = stats.get('r1.concurrent_read_by_name_ok', 0) + 1
+        elif bound_before:
+            ex = r['exc']
+            bad_txn = any(x['status'] in ('error', 'killed') and x['op'].get('model') is not None and
+                          POOL[x['op']['model']]['key'] == e['key'] and
+                          x['op']['kind'] not in ('retrieve', 'retrieve_name', 'log', 'annotate',
+                                                  'retrieve_log') for x in recs) or any(
+                f.get('model') is not None and POOL[f['model']]['key'] == e['key'] for f in failed_ops)
+            ann_failed = any(x['status'] in ('error', 'killed') and x['op']['kind'] in ('store', 'annotate')
+                             for x in writers) or any(
+                f.get('model') is not None and f['kind'] in ('store', 'annotate', 'store_input',
+                                                             'store_final') for f in failed_ops)
+            if isinstance(ex, base._P['Pending']) and bad_txn:
+                V.viol('committed-unretrievable/PendingTransactionError/'
+                       'later-transaction-in-flight-on-same-key',
+                       f'{r["vt"]}: name {name!r} was committed; an interrupted transaction on the same '
+                       f'key left PENDING and the entry is refused')
+            elif isinstance(ex, OSError) and (
+                    ex.errno in (errno.ENOSPC, errno.EIO, errno.EMFILE, errno.EACCES) or
+                    any(pe[2] == ex.errno for pe in simos.produced_errors)):
+                stats['observed.read_refused_by_environment'] = \
+                    stats.get('observed.read_refused_by_environment', 0) + 1
+            elif isinstance(ex, KeyError) and 'annotation' in str(ex).lower() and ann_failed:
+                pass    # its own annotation write was interrupted: covered by the restart check
+            else:
+                V.viol(f'committed-unretrievable/{type(ex).__name__}',
+                       f'{r["vt"]}: retrieve by name of committed {name!r} raised {ex!r}')
     for r in acked:
         r['op']['_times'] = (hist.base + r['inv'], hist.base + r['ret'])
         base.apply_ack(ref, r['op'])
     for r in recs:
         if r['status'] in ('error', 'killed', 'inflight'):
-            if r['op']['kind'] not in ('retrieve', 'retrieve_log'):
+            if r['op']['kind'] not in ('retrieve', 'retrieve_log', 'retrieve_name'):
                 failed_ops.append(r['op'])
             if r['status'] == 'error':
                 stats['op.failed_with_' + type(r['exc']).__name__] = \
